@@ -5,6 +5,7 @@ import (
 	"go/ast"
 	"go/token"
 	"go/types"
+	"sort"
 	"strings"
 
 	"asverif/internal/eff"
@@ -693,65 +694,69 @@ func (c *Ctx) sortedByCaller(fi *load.FuncInfo) {
 
 // listerFilters: C13.3/C10.4 (owner filter) and C13.4 (de-duplication) on the revision lister.
 func (c *Ctx) listerFilters(ownerRule, dedupRule string) {
-	// all uncached List sites on controllerrevisions in the controller package
-	// (a List inside a small wrapper counts for each function the wrapper is expanded into, once per call)
-	lists := map[*types.Func][]*eff.Site{}
-	for _, fi := range c.P.Funcs() {
-		if fi.Pkg.PkgPath != load.CtrlPkg || c.liftedAway(fi) {
-			continue
-		}
-		for _, ls := range c.sitesOf(fi) {
-			if ls.Resource == "controllerrevisions" && ls.Verb == "List" {
-				lists[fi.Obj] = append(lists[fi.Obj], ls.Site)
-			}
-		}
+	// the listings: uncached List sites on controllerrevisions of the history lister (a List inside a helper counts once
+	// per call of the helper), and the functions, reachable from the lister, that build the slice it returns
+	lr := c.Func(load.CtrlPkg, "defaultStatefulSetControl.ListRevisions")
+	if lr == nil {
+		return
 	}
 	total := 0
-	for f, ss := range lists {
-		total += len(ss)
+	for _, ls := range c.sitesOf(lr) {
+		if ls.Resource == "controllerrevisions" && ls.Verb == "List" {
+			total++
+		}
+	}
+	reach := c.G.ReachDirect(lr.Obj)
+	var builders []*load.FuncInfo
+	for f := range reach {
 		fi := c.P.FuncInfoOf(f)
-		fn, an := c.Analysis(fi)
-		info := fi.Pkg.TypesInfo
-		sets := paramsOfType(fi, load.APIPkg, "StatefulSet")
-		if len(sets) != 1 {
-			c.Bad(ownerRule+"-owner-filter", fi.Obj.Name(), fi.Decl.Pos(), "revisions are listed in a function without the owning set at hand")
+		if fi == nil || fi.Pkg.PkgPath != load.CtrlPkg {
 			continue
 		}
-		// the result slice: returned first
+		builders = append(builders, fi)
+	}
+	sort.Slice(builders, func(i, j int) bool { return builders[i].Obj.FullName() < builders[j].Obj.FullName() })
+	nApp := 0
+	for _, fi := range builders {
+		fn, an := c.Analysis(fi)
+		info := fi.Pkg.TypesInfo
+		// the slice of revisions this function returns first
 		var res types.Object
-		ast.Inspect(fi.Decl.Body, func(n ast.Node) bool {
-			if ret, ok := n.(*ast.ReturnStmt); ok && len(ret.Results) == 2 {
-				if id, ok := ret.Results[0].(*ast.Ident); ok && !isNilExpr(info, id) {
+		ownNodes(fi.Decl.Body, func(n ast.Node) {
+			if ret, ok := n.(*ast.ReturnStmt); ok && len(ret.Results) >= 1 {
+				if id, ok := ast.Unparen(ret.Results[0]).(*ast.Ident); ok && !isNilExpr(info, id) && types.TypeString(info.TypeOf(id), nil) == "[]*k8s.io/api/apps/v1.ControllerRevision" {
 					res = info.ObjectOf(id)
 				}
 			}
-			return true
 		})
 		if res == nil {
-			c.Bad(ownerRule+"-owner-filter", fi.Obj.Name(), fi.Decl.Pos(), "the listed revisions are returned without an intermediate slice: no filter possible")
 			continue
 		}
-		nApp := 0
-		ast.Inspect(fi.Decl.Body, func(n ast.Node) bool {
+		sets := paramsOfType(fi, load.APIPkg, "StatefulSet")
+		ownNodes(fi.Decl.Body, func(n ast.Node) {
 			as, ok := n.(*ast.AssignStmt)
 			if !ok || len(as.Lhs) != 1 || len(as.Rhs) != 1 {
-				return true
+				return
 			}
 			id, ok := as.Lhs[0].(*ast.Ident)
 			if !ok || info.ObjectOf(id) != res {
-				return true
+				return
 			}
 			call, ok := as.Rhs[0].(*ast.CallExpr)
 			if !ok {
-				return true
+				return
 			}
-			if fid, _ := call.Fun.(*ast.Ident); fid == nil || fid.Name != "append" {
-				return true
+			if fid, _ := call.Fun.(*ast.Ident); fid == nil || fid.Name != "append" || call.Ellipsis.IsValid() {
+				return
 			}
 			st := an.StateBefore(as)
 			for _, x := range call.Args[1:] {
 				nApp++
-				name := fmt.Sprintf("%s: append(%s, %s)", fi.Obj.Name(), res.Name(), types.ExprString(x))
+				name := fmt.Sprintf("%s: append(%s, %s)", tableShort(c, fi), res.Name(), types.ExprString(x))
+				if len(sets) != 1 {
+					c.Bad(ownerRule+"-owner-filter", name, as.Pos(), "revisions are collected in a function without the owning set at hand")
+					continue
+				}
 				xt := fn.Term(x)
 				uid := c.WantTerm(fn, as.Pos(), "$1.UID", sets[0])
 				var alts []*gf.Formula
@@ -760,14 +765,31 @@ func (c *Ctx) listerFilters(ownerRule, dedupRule string) {
 					alts = append(alts, gf.FNil(ct), gf.FEq(gf.Field(ct, "UID", nil), uid))
 				}
 				c.Implies(st, gf.Or(alts...), ownerRule+"-owner-filter", name, as.Pos())
-				if len(ss) > 1 {
+				if total > 1 {
 					c.dedup(fi, fn, an, as, x, dedupRule, name)
+					// the record of what was seen spans both listings: it lives in the lister, or in a function the lister
+					// calls once for all the listed items (kept per call of a helper that is called once per listing, a
+					// revision found by both listings is appended twice)
+					if fi != lr {
+						nCalls := 0
+						for _, g := range builders {
+							for _, cc := range callsIn(g.Decl.Body, true) {
+								if f := gf.StaticCallee(g.Pkg.TypesInfo, cc); f != nil && f.Origin() == fi.Obj {
+									nCalls++
+									if innermostLoop(g.Decl.Body, cc) != nil {
+										nCalls++
+									}
+								}
+							}
+						}
+						c.Check(nCalls == 1, dedupRule+"-dedup-spans-the-listings", name, as.Pos(), "the function holding the record of seen names is called once",
+							fmt.Sprintf("the names already seen are remembered per call of %s, which is called %d times (once per listing): a revision carrying both the selector labels and the upgrade label is counted twice", tableShort(c, fi), nCalls))
+					}
 				}
 			}
-			return true
 		})
-		c.Floor(ownerRule+"-lister-appends", nApp, 1)
 	}
+	c.Floor(ownerRule+"-lister-appends", nApp, 1)
 	c.Floor(ownerRule+"-revision-list-sites", total, 2)
 }
 
